@@ -306,6 +306,10 @@ impl Shim<'_> {
                     o.classes.push("model-budget-exceeded".into());
                     continue;
                 }
+                Err(Stop::Unspecified(what)) => {
+                    o.classes.push(format!("unspecified:{what}"));
+                    continue;
+                }
                 Err(Stop::Unsupported(m)) => {
                     return Outcome::discard(format!("model cannot interpret generated program: {m}\n--- source ---\n{src}"));
                 }
